@@ -373,7 +373,54 @@ func cfgRun(a kv) string {
 			}
 		}
 	}
-	return "run=ok at=- out=" + fmtInts(outs)
+	if !a.bool("fail", false) {
+		return "run=ok at=- out=" + fmtInts(outs)
+	}
+	// one more round in which EVERY sensor read fails (the file holds text that is no number; the moving averages keep
+	// their last values): an evaluation may fail, it must not crash. Per curve: its value, or `e` for an error.
+	k := len(vals)
+	verifhook.SetClock(now + int64(k)*1000000000)
+	for _, s := range ss {
+		if err := os.WriteFile(s.path, []byte("N/A\n"), 0o644); err != nil {
+			panic(err)
+		}
+	}
+	var ftoks []string
+	for i, c := range cs {
+		type res struct {
+			v   int
+			err error
+			pan string
+		}
+		ch := make(chan res, 1)
+		go func() {
+			defer func() {
+				if r := recover(); r != nil {
+					ch <- res{pan: panicClass(r)}
+				}
+			}()
+			v, err := c.Evaluate()
+			ch <- res{v: v, err: err}
+		}()
+		at := fmt.Sprintf("%d.%d", k, i)
+		select {
+		case r := <-ch:
+			if r.pan != "" {
+				return "run=panic:" + r.pan + " at=" + at + " out=" + fmtInts(outs)
+			}
+			if r.err != nil {
+				ftoks = append(ftoks, "e")
+			} else {
+				ftoks = append(ftoks, strconv.Itoa(r.v))
+			}
+		case <-time.After(2 * time.Second):
+			return "run=hang at=" + at + " out=" + fmtInts(outs)
+		}
+	}
+	if len(ftoks) == 0 {
+		ftoks = []string{"-"}
+	}
+	return "run=ok at=- out=" + fmtInts(outs) + " fail=" + strings.Join(ftoks, ",")
 }
 
 func init() {
